@@ -1,0 +1,35 @@
+//! Verification hooks (compiled only with `--cfg zmq_verif`).
+//!
+//! Thin public face of the private fair queue so that a deterministic
+//! simulator can drive it with scripted streams. Nothing here is part of the
+//! crate's API; with the cfg off this file is not compiled at all.
+use crate::fair_queue::FairQueue;
+use futures::Stream;
+use std::hash::Hash;
+use std::pin::Pin;
+use std::task::{Context, Poll};
+
+pub struct FairQueueProbe<S, K: Clone>(FairQueue<S, K>);
+
+impl<S, T, K> FairQueueProbe<S, K>
+where
+    T: Send,
+    S: Stream<Item = T> + Send + 'static,
+    K: Eq + Hash + Unpin + Clone + Send + Sync + 'static,
+{
+    pub fn new(block_on_no_clients: bool) -> Self {
+        Self(FairQueue::new(block_on_no_clients))
+    }
+
+    pub fn insert(&self, k: K, s: S) {
+        self.0.inner().lock().insert(k, s);
+    }
+
+    pub fn remove(&self, k: &K) {
+        self.0.inner().lock().remove(k);
+    }
+
+    pub fn poll_next(&mut self, cx: &mut Context<'_>) -> Poll<Option<(K, T)>> {
+        Pin::new(&mut self.0).poll_next(cx)
+    }
+}
